@@ -68,6 +68,7 @@ type TxSpec struct {
 	Acct    int      `json:"ac,omitempty"`
 	AcctHex string   `json:"ach,omitempty"` // apply: explicit miner account (e.g. a contract address)
 	Amount  string   `json:"am,omitempty"`
+	Omit    string   `json:"omit,omitempty"` // refund: "Amount" or "MinerId" is left out of the payload
 	Prog    int      `json:"p,omitempty"`
 	Gas     uint64   `json:"g,omitempty"`
 	Value   string   `json:"v,omitempty"`
@@ -182,7 +183,11 @@ func (s TxSpec) Build() *types.Transaction {
 		// node contract (absent on the dev chain: the executor debits 10 tokens and then fails)
 		tx = RawTx(types.TransactionTypeOperatorNode, src, "", s.Nonce, "", "", s.Salt)
 	case "refund":
-		data, _ := json.Marshal(map[string]string{"Amount": s.Amount, "MinerId": common.ToHex(MinerID(s.Miner))})
+		fields := map[string]string{"Amount": s.Amount, "MinerId": common.ToHex(MinerID(s.Miner))}
+		if s.Omit != "" {
+			delete(fields, s.Omit) // malformed: the json lacks this field
+		}
+		data, _ := json.Marshal(fields)
 		tx = RawTx(types.TransactionTypeMinerRefund, src, "", s.Nonce, string(data), "", s.Salt)
 		s.Signed = true // the refund executor ignores unsigned transactions
 	case "create", "call":
